@@ -22,7 +22,7 @@ import (
 	"github.com/dolthub/dolt/go/zzverif/vsql"
 )
 
-const c34Rule = "one database per case: 2-3 keyed tables (pk INT, c INT, later ADD COLUMN dN INT) with 1-3 rows, 1-2 commits on main, a branch b1 at one of them (50%: with its own extra commit), then 6-16 drawn steps on one session: row INSERT/UPDATE/DELETE, CREATE TABLE, DROP TABLE, ADD COLUMN (all values fresh, so logically equal tables are byte-equal tables); dolt_add(t|'.'); dolt_reset(t|no args), ('--hard'[,commit]), ('--soft',commit), (commit); dolt_commit('-m'|'-am'); dolt_stash('push',name[, '--include-untracked']) / pop / drop on two stash names; dolt_checkout(branch), ('--move',branch), (table). Oracle: a three-root model per branch written from the procedures' documentation: add copies working->staged per table; table reset copies HEAD->staged; hard reset sets staged=working=target keeping untracked tables; soft reset moves HEAD only; mixed reset moves HEAD and staged; stash push saves the (tracked [+untracked with -u]) changes and leaves staged=HEAD and the stashed tables of working = HEAD; pop three-way-merges the stash into working (table level, row/cell level through vsql.Merge3 when both sides changed a table) and re-stages tables that were staged as new, failing without any change on a conflict; plain checkout only switches the session; --move carries the uncommitted changes to the target iff no table would be overwritten (else it fails and nothing changes) and leaves the source branch clean. After every version-control call HEAD hash, HEAD/STAGED/WORKING tables+schemas+rows of both branches, active_branch() and dolt_stashes are compared with the model. Non-trivial: the sequence contains a successful stash push over a table that had both staged and unstaged changes followed by a successful pop, and either a refused --move checkout or a --move checkout that carried changes; distinct by the full step list."
+const c34Rule = "one database per case: 2-3 keyed tables (pk INT, c INT, later ADD COLUMN dN INT) with 1-3 rows, 1-2 commits on main, a branch b1 at one of them (50%: with its own extra commit), then 8-18 drawn steps (weights depend on the state: more stash pushes while a table has staged and unstaged changes, more pops while a stash exists) on one session: row INSERT/UPDATE/DELETE, CREATE TABLE, DROP TABLE, ADD COLUMN (all values fresh, so logically equal tables are byte-equal tables); dolt_add(t|'.'); dolt_reset(t|no args), ('--hard'[,commit]), ('--soft',commit), (commit); dolt_commit('-m'|'-am'); dolt_stash('push',name[, '--include-untracked']) / pop / drop on two stash names; dolt_checkout(branch), ('--move',branch), (table). Oracle: a three-root model per branch written from the procedures' documentation: add copies working->staged per table; table reset copies HEAD->staged; hard reset sets staged=working=target keeping untracked tables; soft reset moves HEAD only; mixed reset moves HEAD and staged; stash push saves the (tracked [+untracked with -u]) changes and leaves staged=HEAD and the stashed tables of working = HEAD; pop three-way-merges the stash into working (table level, row/cell level through vsql.Merge3 when both sides changed a table) and re-stages tables that were staged as new, failing without any change on a conflict; plain checkout only switches the session; --move carries the uncommitted changes to the target iff no table would be overwritten (else it fails and nothing changes) and leaves the source branch clean. After every version-control call HEAD hash, HEAD/STAGED/WORKING tables+schemas+rows of both branches, active_branch() and dolt_stashes are compared with the model. Non-trivial: the sequence contains a successful stash push over a table that had both staged and unstaged changes followed by a successful pop, and either a refused --move checkout or a --move checkout that carried changes; distinct by the full step list."
 
 var c34Assumptions = []string{
 	"no dolt_ignore patterns, foreign keys, renames or auto-increment columns are generated (C46 covers ignore patterns); table and branch names never coincide",
@@ -145,6 +145,7 @@ type c34Stash struct {
 	root    c34Root
 	base    c34Root
 	toStage []string
+	both    bool // pushed while some table had staged and unstaged changes
 }
 
 type c34Model struct {
@@ -712,16 +713,26 @@ func c34Run(rt *rapid.T, env *c34Env, rec *vh.Recorder, known map[string]int) {
 	}
 
 	// ---- drawn steps
-	nsteps := rapid.IntRange(6, 16).Draw(rt, "nsteps")
-	stashBoth := false  // a push over a table with staged+unstaged changes is on a stack
-	popAfterBoth := false
+	nsteps := rapid.IntRange(8, 18).Draw(rt, "nsteps")
+	popAfterBoth := false // a stash pushed over a table with staged+unstaged changes was popped
 	moveRefused, moveCarried := false, false
 	for i := 0; i < nsteps; i++ {
 		label := fmt.Sprintf("s%d", i)
-		kind := rapid.SampledFrom(c34Kinds).Draw(rt, label+".kind")
+		kind := rapid.SampledFrom(c.kinds()).Draw(rt, label+".kind")
 		switch kind {
 		case "dml":
 			c.randomDML(rapid.IntRange(1, 2).Draw(rt, label+".n"), label)
+			continue
+		case "dirty_both":
+			// change a table, stage it, change it again: staged and unstaged changes of one table
+			names := c.m.b().working.names()
+			t := rapid.SampledFrom(names).Draw(rt, label+".t")
+			c.dmlInsert(t, rapid.IntRange(1, 4).Draw(rt, label+".pk1"))
+			if c.m.add([]string{t}) {
+				rt.Fatalf("model: add of a working table fails")
+			}
+			c.step(fmt.Sprintf("CALL dolt_add('%s')", t), false)
+			c.dmlInsert(t, rapid.IntRange(1, 4).Draw(rt, label+".pk2"))
 			continue
 		case "add":
 			b := c.m.b()
@@ -781,7 +792,7 @@ func c34Run(rt *rapid.T, env *c34Env, rec *vh.Recorder, known map[string]int) {
 			c.vc(label, fmt.Sprintf("CALL dolt_commit('%s','%s')", flag, label), fail, nil, known, "")
 		case "stash_push":
 			name := rapid.SampledFrom([]string{"s1", "s1", "s2"}).Draw(rt, label+".name")
-			u := rapid.IntRange(0, 2).Draw(rt, label+".untracked") == 0
+			u := rapid.IntRange(0, 3).Draw(rt, label+".untracked") == 0
 			st, un := c.m.dirty()
 			both := len(c34Intersect(st, un)) > 0
 			fail, dev := c.m.stashPush(name, u)
@@ -797,14 +808,21 @@ func c34Run(rt *rapid.T, env *c34Env, rec *vh.Recorder, known map[string]int) {
 				}
 				if both {
 					classes["stash_push_staged+unstaged_same_table"] = true
-					stashBoth = true
+					c.m.stashes[name][0].both = true
 				}
 			} else {
 				classes["stash_push_nothing"] = true
 			}
 		case "stash_pop":
-			name := rapid.SampledFrom([]string{"s1", "s1", "s2"}).Draw(rt, label+".name")
+			pnames := []string{"s1", "s2"}
+			for _, n := range []string{"s1", "s2"} {
+				if len(c.m.stashes[n]) > 0 {
+					pnames = append(pnames, n, n, n, n)
+				}
+			}
+			name := rapid.SampledFrom(pnames).Draw(rt, label+".name")
 			pre := c.m.clone()
+			wasBoth := len(pre.stashes[name]) > 0 && pre.stashes[name][0].both
 			fail, uncertain := c.m.stashPop(name)
 			q := fmt.Sprintf("CALL dolt_stash('pop','%s')", name)
 			if uncertain {
@@ -814,8 +832,9 @@ func c34Run(rt *rapid.T, env *c34Env, rec *vh.Recorder, known map[string]int) {
 				c.vc(label, q, fail, nil, known, "")
 				if !fail {
 					classes["stash_pop"] = true
-					if stashBoth {
+					if wasBoth {
 						popAfterBoth = true
+						classes["stash_pop_of_staged+unstaged"] = true
 					}
 				} else if len(pre.stashes[name]) > 0 {
 					classes["stash_pop_conflict"] = true
@@ -875,19 +894,44 @@ func c34Run(rt *rapid.T, env *c34Env, rec *vh.Recorder, known map[string]int) {
 	rec.Case(strings.Join(c.log, " ; "), nontrivial, cls...)
 }
 
-var c34Kinds = []string{
-	"dml", "dml", "dml", "dml", "dml",
-	"add", "add", "add",
-	"reset_tables",
-	"reset_hard", "reset_hard",
-	"reset_soft", "reset_mixed",
-	"commit", "commit",
-	"stash_push", "stash_push", "stash_push", "stash_push",
-	"stash_pop", "stash_pop", "stash_pop", "stash_pop",
-	"stash_drop",
-	"checkout", "checkout",
-	"checkout_move", "checkout_move", "checkout_move", "checkout_move",
-	"checkout_table",
+// kinds is the weighted, state-dependent menu of the next step.
+func (c *c34Case) kinds() []string {
+	rep := func(out []string, k string, n int) []string {
+		for i := 0; i < n; i++ {
+			out = append(out, k)
+		}
+		return out
+	}
+	var ks []string
+	ks = rep(ks, "dml", 5)
+	if len(c.m.b().working) > 0 {
+		ks = rep(ks, "dirty_both", 3)
+	}
+	ks = rep(ks, "add", 2)
+	ks = rep(ks, "reset_tables", 1)
+	ks = rep(ks, "reset_hard", 2)
+	ks = rep(ks, "reset_soft", 1)
+	ks = rep(ks, "reset_mixed", 1)
+	ks = rep(ks, "commit", 1)
+	st, un := c.m.dirty()
+	switch {
+	case len(c34Intersect(st, un)) > 0:
+		ks = rep(ks, "stash_push", 8)
+	case len(st)+len(un) > 0:
+		ks = rep(ks, "stash_push", 3)
+	default:
+		ks = rep(ks, "stash_push", 1)
+	}
+	if len(c.m.stashes["s1"])+len(c.m.stashes["s2"]) > 0 {
+		ks = rep(ks, "stash_pop", 6)
+		ks = rep(ks, "stash_drop", 1)
+	} else {
+		ks = rep(ks, "stash_pop", 1)
+	}
+	ks = rep(ks, "checkout", 2)
+	ks = rep(ks, "checkout_move", 4)
+	ks = rep(ks, "checkout_table", 1)
+	return ks
 }
 
 // step runs a statement that must succeed (or must fail) without comparing states.
